@@ -128,6 +128,20 @@ def snapshot(tok):
 def history_case(ctx, case):
     """case {initial: [bool x5], ops: [(op, args.., status, body kind)]}"""
     from minecraft import authentication as A
+    dirty = snapshot(A.AuthenticationToken()) != (None,) * 5
+    try:
+        _history_case(ctx, case)
+    finally:
+        # whatever happened to the tokens of this case, a token constructed
+        # afterwards with defaults holds nothing (checked on every exit path
+        # so that the case reported is the one that caused the leak)
+        if not dirty and snapshot(A.AuthenticationToken()) != (None,) * 5:
+            ctx.fail('history', 'Y6-other-token-changed', case,
+                     snapshot(A.AuthenticationToken()), (None,) * 5)
+
+
+def _history_case(ctx, case):
+    from minecraft import authentication as A
     from minecraft.exceptions import YggdrasilError
     srv = stand_in()
     ctx.ev()
@@ -136,9 +150,25 @@ def history_case(ctx, case):
         username='user0' if init[0] else None,
         access_token='acc0' if init[1] else None,
         client_token='cli0' if init[2] else None)
-    tok.profile.id_ = 'pid0' if init[3] else None
-    tok.profile.name = 'Name0' if init[4] else None
+    # a second, untouched token object alive next to the one under test:
+    # tokens are independent objects, so nothing done to one may show in the
+    # other, and a token constructed with defaults holds nothing
+    other = A.AuthenticationToken()
+    if snapshot(other) != (None,) * 5:
+        return      # leaked by an earlier case, reported there
+    # absent profile fields are left at the constructor's default
+    if init[3]:
+        tok.profile.id_ = 'pid0'
+    if init[4]:
+        tok.profile.name = 'Name0'
     model = list(snapshot(tok))
+    want0 = ['user0' if init[0] else None, 'acc0' if init[1] else None,
+             'cli0' if init[2] else None, 'pid0' if init[3] else None,
+             'Name0' if init[4] else None]
+    if model != want0:
+        ctx.fail('history', 'Y6-constructed-token-state',
+                 {'initial': init, 'ops': []}, model, want0)
+        return
     had_error_on_populated = False
     good_after_error = False
     for step, op in enumerate(case['ops']):
@@ -148,6 +178,11 @@ def history_case(ctx, case):
         srv.next_reply = (status, data, ctype)
         del srv.requests[:]
         before = snapshot(tok)
+        if snapshot(other) != (None,) * 5:
+            ctx.fail('history', 'Y6-other-token-changed',
+                     {'initial': init, 'ops': case['ops'][:step]},
+                     snapshot(other), (None,) * 5)
+            return
         # Y1
         want_auth = all(v is not None for v in model)
         if bool(tok.authenticated) is not want_auth:
@@ -324,6 +359,10 @@ def history_case(ctx, case):
         else:
             ctx.label('unspecified_reply')
             model = list(snapshot(tok)) if exc is None else model
+    if snapshot(other) != (None,) * 5:
+        ctx.fail('history', 'Y6-other-token-changed', case,
+                 snapshot(other), (None,) * 5)
+        return
     if good_after_error:
         ctx.nt(repr(case))
 
